@@ -2,6 +2,7 @@ import PeptVerif.Model.Proto
 import PeptVerif.Model.Annotation
 import PeptVerif.Model.CompCalc
 import PeptVerif.Spec.Mass
+import PeptVerif.Model.MassEnv
 /-! Line-protocol operations shared by the drivers of C02, C03, C05 (mass tables, mass / composition calculators,
 specification). Mathlib-free. -/
 open Pept Pept.Chem Pept.Mass Proto
@@ -120,8 +121,12 @@ def parseStatic? (s : String) : Option (Except Err (List (List Char × List Mod)
 
 def mkEnv? (res static : String) : Option Env := do
   let tbl ← parseResTable? res
-  let st ← parseStatic? static
-  pure ⟨fun v => match tbl.find? (fun p => p.1 == v) with | some p => p.2 | none => unresolved, fun _ => st⟩
+  let r : ModVal → Res := fun v => match tbl.find? (fun p => p.1 == v) with | some p => p.2 | none => unresolved
+  -- "P": the rules are parsed by the concrete model of parse_static_mods instead of being sent over the wire
+  if static == "P" then pure (Env.concrete r)
+  else do
+    let st ← parseStatic? static
+    pure ⟨r, fun _ => st⟩
 
 /-! ### options -/
 
